@@ -13,6 +13,7 @@ from harness.gen import sim_gen
 
 MAXSIZE = 9223372036854775807
 DONE = ("COMPLETED", "EVICTED")
+PLANNER_POLICIES = ("ILP", "TetriSchedGurobi", "TetriSchedCPLEX")
 
 
 def join(rows):
@@ -551,6 +552,8 @@ def oracle(prop, run):
                     ok = (not o["parents"]) or (bool(done) if o["terminal"] else len(done) == len(o["parents"]))
                     if not ok:
                         yield ("C18 task-offered-before-its-predecessors-completed", {"task": o, "time": e["time"]})
+    if prop in ("C10", "C11", "C12") and world["policy"]["name"] in PLANNER_POLICIES:
+        yield from planner_run_oracle(prop, run, starts, finishes, not_ready_rows(rows))
     if prop == "C08" and obs["err"] is None:
         end = [r for r in rows if r[1] == "SIMULATOR_END"]
         if end:
@@ -603,6 +606,236 @@ def oracle(prop, run):
                 yield ("C08 scheduler-finished-placed-count-wrong", {"row": r, "placed": placed})
             if int(r[4]) != unplaced:
                 yield ("C08 scheduler-finished-unplaced-count-wrong", {"row": r, "unplaced": unplaced})
+
+
+def not_ready_rows(rows):
+    out = {}
+    for r in rows:
+        if len(r) > 4 and r[1] in ("TASK_NOT_READY", "WORKER_NOT_READY"):
+            out.setdefault(r[4], []).append((int(r[0]), r[1]))
+    return out
+
+
+def standing_decisions(run):
+    """Walk the observations in program order.  Yields for every Task.start the decision it carries out: the LAST
+    decision that placed the task (a later answer without a pool, or a cancellation, withdraws it).
+    Returns (carried: task -> (k, time, placement) | None, every (k, time, placement) placed decision)."""
+    mon, case = run["obs"]["mon"], run["case"]
+    standing, carried, started, placed = {}, {}, set(), []
+    for e in mon:
+        if e["ev"] == "decision":
+            for p_ in case["decisions"][e["k"]]["placements"]:
+                if p_["kind"] not in ("place", "cancel"):
+                    continue
+                lab = f"g{p_['g']}.t{p_['t']}"
+                if p_["kind"] == "place" and p_["pool"] is not None:
+                    placed.append((e["k"], e["time"], lab, p_))
+                if lab in started:
+                    continue
+                if p_["kind"] == "place" and p_["pool"] is not None:
+                    standing[lab] = (e["k"], e["time"], p_)
+                else:
+                    standing.pop(lab, None)
+        elif e["ev"] == "start":
+            started.add(e["t"])
+            carried.setdefault(e["t"], standing.get(e["t"]))
+    return carried, placed
+
+
+def planner_run_oracle(prop, run, starts, finishes, not_ready):
+    """Run-level clauses for the optimisation planners (ILP, TetriSched-Gurobi, TetriSched-CPLEX) run end to end:
+    every decision of a real run is a scheduler input the simulator reached, and what the simulator does with the
+    decision is what the property's last sentence is about."""
+    obs, world, case = run["obs"], run["world"], run["case"]
+    tasks, mon = obs["tasks"], obs["mon"]
+    pol, flags = world["policy"], world["flags"]
+    name = pol["name"]
+    variance = flags["runtime_variance"]
+    carried, placed = standing_decisions(run)
+    if prop in ("C10", "C11"):
+        yield from planner_decision_oracle(prop, run)
+    if prop == "C12":
+        # (1) what is executed is the LAST decision: on the pool / worker it names, remaining time at the start = runtime
+        # of the strategy of the last decision for the task (fuzzed upwards by at most the variance), completion = start + that
+        placed_on = {}
+        for e in mon:
+            if e["ev"] == "place":
+                placed_on[e["t"]] = tuple(e["w"])
+        for t, evs in starts.items():
+            e = evs[0]
+            c = carried.get(t)
+            if c is None:
+                yield (f"C12 task-started-without-a-standing-decision planner={name}", {"start": e})
+                continue
+            k, dtime, p_ = c
+            at = placed_on.get(t)
+            if at is not None and (at[0] != p_["pool"] or (p_["worker"] is not None and at[1] != p_["worker"])):
+                yield (f"C12 started-elsewhere-than-the-last-decision-named planner={name}", {"task": t, "placed_on": list(at), "decision": k, "decided_at": dtime, "decided": p_})
+            rt = p_["strat"]["rt"]
+            hi = math.ceil(rt * (1 + variance / 100.0))
+            if not (rt <= e["remaining"] <= hi):
+                yield (f"C12 executed-runtime-is-not-that-of-the-last-decision planner={name} variance={variance}",
+                       {"task": t, "start": e, "decision": k, "decided_at": dtime, "decided": p_})
+            fin = finishes.get(t)
+            if variance == 0 and fin and fin[0]["state"] == "COMPLETED" and fin[0]["completion"] != e["time"] + rt:
+                yield (f"C12 completion-is-not-start-plus-runtime-of-the-last-decision planner={name}",
+                       {"task": t, "start": e["time"], "completion": fin[0]["completion"], "decision": k, "decided_at": dtime, "decided": p_})
+        enforced = bool(pol.get("enforce_deadlines")) and not (name == "ILP" and flags["release_taskgraphs"])
+        if enforced:
+            # (2) no decision plans a completion after the deadline (hence a hopeless task is never placed)
+            for k, dtime, lab, p_ in placed:
+                dl = tasks[lab]["deadline"]
+                if p_["time"] + p_["strat"]["rt"] > dl:
+                    yield (f"C12 decision-completes-after-the-deadline planner={name}", {"task": lab, "decision": k, "decided_at": dtime, "decided": p_, "deadline": dl})
+            # (3) TetriSched-CPLEX answers a hopeless task with a cancellation
+            if name == "TetriSchedCPLEX":
+                offers = [e for e in mon if e["ev"] == "offer" and e.get("in_policy")]
+                decs = [e for e in mon if e["ev"] == "decision"]
+                for off, de in zip(offers, decs):
+                    answered = {f"g{p_['g']}.t{p_['t']}": p_ for p_ in case["decisions"][de["k"]]["placements"] if p_["kind"] in ("place", "cancel")}
+                    for o in off["offered"]:
+                        tk = tasks[o["t"]]
+                        if tk["deadline"] < off["time"] + tk["min_runtime"] and answered.get(o["t"], {}).get("kind") != "cancel":
+                            yield ("C12 hopeless-task-not-answered-with-a-cancellation planner=TetriSchedCPLEX", {"task": o["t"], "time": off["time"], "answer": answered.get(o["t"])})
+        if enforced and variance == 0:
+            # (4) the consequence: every task that completes does so by its deadline
+            for t, tk in tasks.items():
+                if tk["state"] != "COMPLETED" or tk["completion"] <= tk["deadline"]:
+                    continue
+                c = carried.get(t)
+                st = starts.get(t, [{}])[0]
+                if c is None:
+                    cause = "no-standing-decision"
+                else:
+                    k, dtime, p_ = c
+                    waits = sorted({w for x, w in not_ready.get(t, []) if p_["time"] <= x < st.get("time", -1)})
+                    if p_["time"] + p_["strat"]["rt"] > tk["deadline"]:
+                        cause = "the-decision-itself-is-late"
+                    elif st.get("remaining") != p_["strat"]["rt"]:
+                        cause = "executed-another-runtime-than-decided"
+                    elif st.get("time", -1) > p_["time"]:
+                        cause = "start-deferred-by-" + ("+".join(waits) if waits else "nothing-visible")
+                    else:
+                        cause = "unclassified"
+                # a start that waited for a parent (TASK_NOT_READY) earlier in the run: the plan put a child before its parent
+                earlier = any(w == "TASK_NOT_READY" and x <= st.get("time", -1) for evs_ in not_ready.values() for x, w in evs_)
+                root = "a-child-was-placed-before-its-parent-finished" if earlier else "none"
+                yield (f"C12 completed-after-its-deadline planner={name} lookahead={'yes' if pol.get('lookahead') else 'no'} retract={bool(pol.get('retract'))} cause={cause} root={root}",
+                       {"task": t, "deadline": tk["deadline"], "completion": tk["completion"], "start": st, "carried": c})
+
+
+def planner_decision_oracle(prop, run):
+    """C10 / C11 at run level: every decision of a real run answers a scheduler input the simulator reached.  The
+    observations are walked in program order, keeping for every task whether it is finished, running (where, until
+    when) or has a standing placement; each decision is judged against that state."""
+    obs, world, case = run["obs"], run["world"], run["case"]
+    tasks, mon = obs["tasks"], obs["mon"]
+    name = world["policy"]["name"]
+    cap = {}
+    for pi, pc in enumerate(case["pools"]):
+        for wi, wc in enumerate(pc["workers"]):
+            c = {}
+            for n_, _i, q in wc:
+                c[n_] = c.get(n_, 0) + q
+            cap[(pi, wi)] = c
+    strategies_of = {}
+    for gi, g in enumerate(case["graphs"]):
+        for ti, t in enumerate(g["graph"]["tasks"]):
+            strategies_of[f"g{gi}.t{ti}"] = {s_["sid"] for s_ in t["strategies"]}
+    standing, running, done, where, started = {}, {}, set(), {}, set()
+    last_offer = None
+    for e in mon:
+        ev = e["ev"]
+        if ev == "offer" and e.get("in_policy"):
+            last_offer = e
+        elif ev == "place":
+            where[e["t"]] = tuple(e["w"])
+        elif ev == "start":
+            started.add(e["t"])
+            st = standing.pop(e["t"], None)
+            running[e["t"]] = {"w": where.get(e["t"]), "end": e["time"] + e["remaining"], "req": (st or {}).get("strat", {}).get("req", [])}
+        elif ev == "finish":
+            running.pop(e["t"], None)
+            done.add(e["t"])
+        elif ev == "transition" and e["post"] == "CANCELLED":
+            standing.pop(e["t"], None)
+        elif ev == "decision":
+            now = e["time"]
+            d = case["decisions"][e["k"]]
+            ps = [p_ for p_ in d["placements"] if p_["kind"] in ("place", "cancel")]
+            labs = [f"g{p_['g']}.t{p_['t']}" for p_ in ps]
+            offered = {o["t"]: o for o in (last_offer["offered"] if last_offer and last_offer["time"] == now else [])}
+            if prop == "C10":
+                for lab in sorted({x for x in labs if labs.count(x) > 1}):
+                    yield (f"C10 run: two-decisions-for-one-task-in-one-answer planner={name}", {"task": lab, "decision": e["k"], "time": now})
+                for lab, p_ in zip(labs, ps):
+                    if lab in started:
+                        yield (f"C10 run: decision-for-a-task-that-has-started planner={name}", {"task": lab, "decision": e["k"], "time": now})
+                    elif lab not in offered and lab not in standing:
+                        yield (f"C10 run: decision-for-a-task-neither-offered-nor-scheduled planner={name}", {"task": lab, "decision": e["k"], "time": now})
+                    if p_["kind"] == "place" and p_["pool"] is not None:
+                        if p_["time"] < now:
+                            yield (f"C10 run: placement-in-the-past planner={name}", {"task": lab, "decision": e["k"], "time": now, "decided": p_})
+                        if p_["strat"] is None or p_["strat"]["sid"] not in strategies_of.get(lab, set()):
+                            yield (f"C10 run: strategy-does-not-belong-to-the-task planner={name}", {"task": lab, "decision": e["k"], "decided": p_})
+                        if p_["pool"] >= len(case["pools"]) or (p_["worker"] is not None and p_["worker"] >= len(case["pools"][p_["pool"]]["workers"])):
+                            yield (f"C10 run: unknown-pool-or-worker planner={name}", {"task": lab, "decision": e["k"], "decided": p_})
+                for lab, o in offered.items():
+                    if o["state"] != "SCHEDULED" and lab not in labs:
+                        yield (f"C10 run: offered-task-not-answered planner={name}", {"task": lab, "decision": e["k"], "time": now, "state": o["state"]})
+            # the plan after this answer
+            for lab, p_ in zip(labs, ps):
+                if lab in started:
+                    continue
+                if p_["kind"] == "place" and p_["pool"] is not None:
+                    standing[lab] = p_
+                else:
+                    standing.pop(lab, None)
+            new = [(lab, p_) for lab, p_ in zip(labs, ps) if p_["kind"] == "place" and p_["pool"] is not None and lab not in started]
+            if prop == "C10" and new and world["flags"]["runtime_variance"] == 0:
+                # (exact runtimes only: the planners book a RUNNING task until now + the nominal runtime of its strategy,
+                # with a variance the task may really hold its resources longer)
+                items = []   # (worker, start, end, req, label)
+                for lab, p_ in standing.items():
+                    if p_["worker"] is not None and p_["strat"] is not None:
+                        items.append(((p_["pool"], p_["worker"]), max(p_["time"], now) if (lab, p_) not in new else p_["time"], None, p_["strat"], lab))
+                items = [(w, s0, s0 + st_["rt"], st_["req"], lab) for w, s0, _x, st_, lab in items]
+                for lab, r_ in running.items():
+                    if r_["w"] is not None:
+                        items.append((r_["w"], now, r_["end"], r_["req"], lab))
+                for w in {w for w, *_ in items}:
+                    mine = [it for it in items if it[0] == w]
+                    for inst in sorted({p_["time"] for lab, p_ in new if (p_["pool"], p_["worker"]) == w}):
+                        use = {}
+                        for _w, s0, e0, req, lab in mine:
+                            if s0 <= inst < e0:
+                                for n_, _i, q in req:
+                                    use[n_] = use.get(n_, 0) + q
+                        over = {n_: (q, cap.get(w, {}).get(n_, 0)) for n_, q in use.items() if q > cap.get(w, {}).get(n_, 0)}
+                        if over:
+                            yield (f"C10 run: plan-exceeds-a-worker's-capacity-at-a-planned-instant planner={name}",
+                                   {"decision": e["k"], "time": now, "worker": list(w), "instant": inst, "over": over, "plan": [(lab, s0, e0) for _w, s0, e0, _r, lab in mine]})
+                            break
+            if prop == "C11" and name in ("ILP", "TetriSchedGurobi"):
+                answered = dict(zip(labs, ps))
+                for lab, p_ in new:
+                    for q in tasks[lab]["parents"]:
+                        if q in done:
+                            continue
+                        if q in running:
+                            # (exact runtimes only: with a variance the planners know the nominal runtime of the parent's
+                            # strategy, the parent really runs longer)
+                            if world["flags"]["runtime_variance"] == 0 and p_["time"] < running[q]["end"]:
+                                yield (f"C11 run: child-planned-before-the-expected-finish-of-its-running-parent planner={name}",
+                                       {"child": lab, "parent": q, "decision": e["k"], "time": now, "child_start": p_["time"], "parent_finish": running[q]["end"]})
+                        elif q in standing:
+                            pq = standing[q]
+                            if p_["time"] < pq["time"] + pq["strat"]["rt"]:
+                                yield (f"C11 run: child-planned-before-its-parent's-planned-finish planner={name} parent-decided-in-the-same-answer={q in answered}",
+                                       {"child": lab, "parent": q, "decision": e["k"], "time": now, "child_start": p_["time"], "parent": pq})
+                        elif q in answered:
+                            yield (f"C11 run: child-placed-although-a-parent-decided-in-the-same-answer-is-not-placed planner={name}",
+                                   {"child": lab, "parent": q, "decision": e["k"], "time": now})
 
 
 def csv_reader_oracle(obs, world):
@@ -791,6 +1024,129 @@ def run_suite(chk: common.Check, prop: str, n_quick=400, n_thorough=4000, stream
         "the scheduler is a black box of the simulator model: its decisions are recorded from the real run and replayed (every theorem about the model is for any policy)",
         "random draws are recorded from the real run and replayed in program order; wall-clock true_runtime is masked; utilisation rows of one pool and instant are compared as a sorted block",
         "preemption / migration is out of scope of the simulator model (explicit NotImplementedError outcome)",
+    ]
+
+
+def licence_limited(obs):
+    """The solver refused the model because of the size-restricted licence of this installation (an artefact of the
+    environment, not of the code under test): the run says nothing."""
+    msg = str(obs.get("exc") or "")
+    return (obs["err"] == "GurobiError" and "size-limited license" in msg) or obs["err"] == "DOcplexLimitsExceeded"
+
+
+def replanned_with_another_strategy(run):
+    """Number of tasks that were placed by two decisions with different strategies before they started."""
+    n, seen, started = 0, {}, set()
+    counted = set()
+    for e in run["obs"]["mon"]:
+        if e["ev"] == "start":
+            started.add(e["t"])
+        elif e["ev"] == "decision":
+            for p_ in run["case"]["decisions"][e["k"]]["placements"]:
+                if p_["kind"] == "place" and p_["pool"] is not None and p_["strat"] is not None:
+                    lab = f"g{p_['g']}.t{p_['t']}"
+                    if lab in started:
+                        continue
+                    if lab in seen and seen[lab] != p_["strat"]["sid"] and lab not in counted:
+                        counted.add(lab)
+                        n += 1
+                    seen[lab] = p_["strat"]["sid"]
+    return n
+
+
+def run_planner_pass(chk: common.Check, prop: str, n_quick=160, n_thorough=1600):
+    """End-to-end runs of the REAL Simulator under the REAL optimisation planners (stream "plan"): the decision tape
+    recorded from the planner is replayed through the Lean simulator model like any other policy (complete trace
+    correspondence), and the run-level clauses of `prop` are judged on the implementation's own observations."""
+    from harness.impl import sim_impl
+
+    import time as _time
+
+    t0 = _time.time()
+    n = n_quick if chk.tier == "quick" else n_thorough
+    runs = run_worlds(chk, prop, n, streams=("plan",), seed_tag="e2e-plan")
+    skipped = [r for r in runs if licence_limited(r["obs"])]
+    runs = [r for r in runs if not licence_limited(r["obs"])]
+    dis, derr = compare(runs)
+    broken = []
+    if derr:
+        broken.append(derr)
+        dis = []
+    reported = set()
+    replanned = 0
+    late_ok = 0
+    for r in runs:
+        obs, world = r["obs"], r["world"]
+        pol = world["policy"]
+        states = {s for g in obs["final"] for s in g}
+        rp = replanned_with_another_strategy(r) if pol["name"] in PLANNER_POLICIES else 0
+        replanned += rp
+        nontrivial = len(obs["rows"]) > 12 and ("COMPLETED" in states or "CANCELLED" in states)
+        chk.case(
+            {"e2e": "plan", "policy": pol, "flags": world["flags"], "jobs": [(g["name"], g.get("period"), g.get("invocations"), len(g["graph"])) for g in world["workload"]["graphs"]],
+             "pools": [[len(w["resources"]) for w in p["workers"]] for p in world["workers"]], "rows": len(obs["rows"]), "outcome": obs["err"]},
+            nontrivial,
+        )
+        chk.count(f"e2e-plan:policy:{pol['name']}")
+        chk.count(f"e2e-plan:outcome:{obs['err']}")
+        chk.count(f"e2e-plan:retract:{bool(pol.get('retract'))}")
+        chk.count("e2e-plan:decisions", len(r["case"]["decisions"]))
+        chk.count("e2e-plan:tasks-completed", sum(1 for t in obs["tasks"].values() if t["state"] == "COMPLETED"))
+        chk.count("e2e-plan:tasks-cancelled", sum(1 for t in obs["tasks"].values() if t["state"] == "CANCELLED"))
+        if rp:
+            chk.count("e2e-plan:runs-with-a-task-re-placed-with-another-strategy")
+        for sig, detail in oracle(prop, r):
+            if sig in reported and chk.matches_known(sig) is None:
+                continue
+            reported.add(sig)
+            w = world
+            if chk.matches_known(sig) is None:
+
+                def fails(cand, sig=sig, seed=r["seed"]):
+                    c2, o2 = sim_impl.Run(cand, seed=seed).execute()
+                    return any(s == sig for s, _ in oracle(prop, {"obs": o2, "world": cand, "case": c2}))
+
+                try:
+                    w = shrink_world(world, r["seed"], fails)
+                except Exception:
+                    w = world
+            chk.violation(sig, {"suite": "sim", "world": w, "seed": r["seed"], "detail": detail, "how": "oracle on the real simulator run under the real planner"})
+    chk.traces_validated += len(runs) - len(dis)
+    chk.extra["e2e_planner_pass"] = {
+        "runs": len(runs), "skipped_solver_licence_size_limit": len(skipped), "correspondence_disagreements": len(dis),
+        "rows_compared": sum(len(r["obs"]["rows"]) for r in runs), "tasks_re_placed_with_another_strategy": replanned,
+        "wall_s": round(_time.time() - t0, 1),
+    }
+    if dis:
+        i, d = dis[0]
+        broken.append(f"correspondence sim (planner runs): {len(dis)} run(s) differ; first: {d}")
+        chk.extra["e2e_planner_first_disagreement"] = {"world": runs[i]["world"], "seed": runs[i]["seed"], "diff": d}
+    if broken:
+
+        def search():
+            rng = common.Rng(chk.seed, f"{prop}-e2e-plan-search")
+            for k in range(200):
+                world = sim_gen.gen_world(rng, "plan")
+                c2, o2 = sim_impl.Run(world, seed=k).execute()
+                if licence_limited(o2):
+                    continue
+                for sig, detail in oracle(prop, {"obs": o2, "world": world, "case": c2}):
+                    if chk.matches_known(sig) is None:
+                        chk.violation(sig, {"suite": "sim", "world": world, "seed": k, "detail": detail, "how": "failing-input search (oracle on the real simulator under the real planner)"})
+                        return
+
+        common.broken_obligation(chk, broken, search)
+    chk.rule = (chk.rule + " || " if chk.rule else "") + (
+        "end-to-end planner pass: worlds of 1-3 workers (GPU/CPU, quantity 1-2, mostly able to hold every strategy for ILP), 1-3 jobs of 1-3 tasks "
+        "(single, chain, fork, join) released with a fixed period 1-3 times (<= 8 tasks per run), 1-2 strategies per task with different runtimes and "
+        "resource kinds, deadline = release + slowest critical path * (1 + 0..200%); policies ILP / TetriSched-Gurobi / TetriSched-CPLEX with "
+        "enforce_deadlines (85%), retract_schedules (60%), release_taskgraphs (30%, not CPLEX), lookahead 0/3/10/30, goal max_goodput / max_slack (ILP), "
+        "plan-ahead 6-14 slots or default, discretisation 1-3; scheduler frequency -1/1/3/5, runtime 0, drop_skipped_tasks, run-at-worker-free, "
+        "runtime variance 0 (90%); runs refused by the size-restricted solver licence are skipped and counted"
+    )
+    chk.assumptions += [
+        "end-to-end planner pass: the planner is a black box of the simulator model (its decisions are recorded and replayed); the solvers run with one thread "
+        "(the harness replaces multiprocessing.cpu_count in the scheduler modules) and the installation's size-restricted licences",
     ]
 
 
